@@ -68,6 +68,13 @@ def trigger_cases(ctx, shapes, prefix="g"):
             # (alone and together with the other modes: each of them is documented to combine with `segment`)
             cfg = ctx.rng.choice(["segment", "segment", "segment,parse_qq", None, "segment,sec_within", "sec_within,segment,parse_qq",
                                   "segment,sec_colon_cautious", "sec_within"])
+        if ctx.rng.random() < 0.06:
+            # a degenerate description: no Twp/Rge at all (a section and its block, or the block alone), parsed with
+            # `segment` and / or a mandated layout - nothing to segment by, the wording is there all the same
+            extra = "%s %s" % (cap, TAILS[kind])
+            text = ctx.rng.choice(["Sec 14: NE/4, %s", "%s", "NE/4 of Section 5, %s"]) % extra
+            cfg = ctx.rng.choice(["TRS_desc,segment", "TR_desc_S,segment", "desc_STR,segment", "S_desc_TR,segment", "segment",
+                                  "segment,sec_within", None, "TRS_desc"])
         cases.append({"id": "%s%d" % (prefix, i), "kind": "plss", "origin": "trigger placement", "abs": {},
                       "args": {"text": text, "config": cfg, "source": "SRC-1", "post": ctx.rng.choice(POSTS),
                                "triggers": [{"kind": kind, "phrase": key}]}})
